@@ -82,11 +82,21 @@ func observe(h *health.Health, withIsReady bool) (obs, error) {
 	rec := httptest.NewRecorder()
 	req := httptest.NewRequest("GET", "/readyz", nil)
 	h.ReadyzHandler().ServeHTTP(rec, req)
-	var body map[string]string
-	if err := json.Unmarshal(rec.Body.Bytes(), &body); err != nil {
-		return obs{}, fmt.Errorf("body is not a JSON object of strings: %q", clip(rec.Body.String()))
+	o, err := parseAnswer(rec.Code, rec.Body.Bytes())
+	if err == nil && withIsReady {
+		o.IsReady = h.IsReady()
 	}
-	o := obs{Code: rec.Code, Comps: map[int]bool{}, Raw: clip(strings.TrimSpace(rec.Body.String()))}
+	return o, err
+}
+
+// parseAnswer interprets one answer of the endpoint: the body must be ONE JSON object of strings (json.Unmarshal
+// rejects anything after the first document) naming the verdict and components of the case's name table.
+func parseAnswer(code int, raw []byte) (obs, error) {
+	var body map[string]string
+	if err := json.Unmarshal(raw, &body); err != nil {
+		return obs{}, fmt.Errorf("body is not a JSON object of strings: %q", clip(string(raw)))
+	}
+	o := obs{Code: code, Comps: map[int]bool{}, Raw: clip(strings.TrimSpace(string(raw)))}
 	ov, ok := body[health.OverallReady]
 	if !ok {
 		return o, fmt.Errorf("no overall key in %q", o.Raw)
@@ -121,9 +131,6 @@ func observe(h *health.Health, withIsReady bool) (obs, error) {
 		default:
 			return o, fmt.Errorf("component %q has unknown value %q", clip(k), clip(v))
 		}
-	}
-	if withIsReady {
-		o.IsReady = h.IsReady()
 	}
 	return o, nil
 }
@@ -238,6 +245,7 @@ func main() {
 	sum := hutil.NewSummary("C18", seed,
 		"sequential: random Add/Ready sequences (length 0-14, 1-5 names, re-registration and ready-marks of unregistered names), one handler request + IsReady after every op; "+
 			"concurrent: a status request paused at its Len and Iterate lock acquisitions with stores run in between; "+
+			"requests: registrations / ready-marks with GET / HEAD / POST / OPTIONS / ... requests in between against ONE handler, through a recorder, a writer whose 1st or 2nd Write fails or is short, a real httptest.Server connection (keep-alive client; raw connection reset after the request), one goroutine, half of the cases with GOMAXPROCS 1: every completely received answer has the code, verdict, components of the history and exactly one JSON document; "+
 			"writers: a registration / ready-mark paused before each of its lock acquisitions while one or two others (same or other component) run completely, then IsReady, WaitForReady and /readyz against the sequential model for some order; "+
 			"non-trivial = sequence touches >=2 names and passes through both a ready and a not-ready answer; distinct by op sequence")
 
@@ -302,6 +310,9 @@ func main() {
 		}
 	}
 	seqCases.Flush()
+
+	// ---- request histories: other methods, failing writers, real connections (see requests.go) ----
+	requestsStage(sum, r, *n)
 
 	// ---- concurrent: pause the request at Len / Iterate, run stores in between ----
 	concCases := &hutil.CaseFile{Dir: *out, Stem: "cases_conc", PerFile: 1000,
@@ -547,16 +558,18 @@ func doReplay(path string) int {
 	}
 	var rp struct {
 		Replay struct {
-			Mode string   `json:"mode"`
-			Ops  []op     `json:"ops"`
-			Pre  []op     `json:"pre"`
-			Mid  []op     `json:"stores_while_paused"`
-			K    int      `json:"paused_before_lock_index"`
-			St   *op      `json:"store"`
-			Vic  *op      `json:"victim"`
-			Oth  []op     `json:"run_while_paused"`
-			Dw   bool     `json:"dwell"`
-			Nm   []string `json:"names"`
+			Mode string    `json:"mode"`
+			Ops  []op      `json:"ops"`
+			Pre  []op      `json:"pre"`
+			Mid  []op      `json:"stores_while_paused"`
+			K    int       `json:"paused_before_lock_index"`
+			St   *op       `json:"store"`
+			Vic  *op       `json:"victim"`
+			Oth  []op      `json:"run_while_paused"`
+			Dw   bool      `json:"dwell"`
+			Nm   []string  `json:"names"`
+			Stp  []reqStep `json:"steps"`
+			OneP bool      `json:"gomaxprocs_1"`
 		} `json:"replay"`
 	}
 	if err := json.Unmarshal(raw, &rp); err != nil {
@@ -654,6 +667,8 @@ func doReplay(path string) int {
 		}
 		fmt.Println("not reproduced")
 		return 0
+	case "requests":
+		return replayReqCase(reqCase{Mode: "requests", Steps: rp.Replay.Stp, Names: rp.Replay.Nm, OneP: rp.Replay.OneP})
 	case "writers":
 		if rp.Replay.Vic == nil {
 			fmt.Println("replay carries no victim call")
